@@ -3,6 +3,7 @@ import Driver.Common
 import Driver.OpsBits
 import Driver.OpsCode
 import Driver.OpsDeform
+import Driver.OpsGui
 import Driver.OpsMask
 import Driver.OpsNoise
 open Panqec
@@ -12,7 +13,7 @@ open Panqec
     (`none` = not my op); the first that answers wins. -/
 
 def handlers : List (List String → Option String) :=
-  [Drv.handleBits, Drv.handleCode, Drv.handleDeform, Drv.handleMask, Drv.handleNoise]
+  [Drv.handleBits, Drv.handleCode, Drv.handleDeform, Drv.handleGui, Drv.handleMask, Drv.handleNoise]
 
 def handleToks (toks : List String) : String :=
   match handlers.findSome? (fun h => h toks) with
